@@ -14,13 +14,28 @@ theorem propType_field {S : SchemaView} {T name : String} {fd : FieldDef}
     (h : S.field T name = some fd) (hne : name ≠ TYPENAME) : propType S T name = some fd.ty := by
   simp [propType, hne, h]
 
+/-- Does the connection carry `@fold @transform … @transform`? -/
+def FieldConnection.hasRetr (c : FieldConnection) : Bool :=
+  match c.fold with
+  | some fg => fg.hasRetr
+  | none => false
+
+mutual
+/-- Does some field below the node carry `@fold @transform … @transform` (F-7's trigger)? -/
+def hasRetrNode : FieldNode → Bool
+  | .mk _ _ _ _ _ _ conns _ => hasRetrConns conns
+def hasRetrConns : List (FieldConnection × FieldNode) → Bool
+  | [] => false
+  | (c, n) :: rest => c.hasRetr || hasRetrNode n || hasRetrConns rest
+end
+
 mutual
 theorem fillNode_sat {S : SchemaView} (hS : ValidSchemaView S) :
     ∀ (node : FieldNode) (cur : Vid) (pre post : String) (st : St) (cd : CD),
       st.Inv → 0 < st.outStack.length → CD.Inv S st cd → (∀ v ∈ cd.vertices, v.vid ≠ cur) →
       cur < st.nextVid → S.isVertexType post = true → node.coercedTo.getD pre = post →
       ValidNode S post node →
-      Sat FillSite (fillNode S cur pre post node st cd)
+      Sat (FillSite (hasRetrNode node)) (fillNode S cur pre post node st cd)
         (fun r => FillPost S st cd r.1 r.2.1 (r.2.2 = []) ∧ cur ∈ r.2.1.vertices.map (·.vid))
   | .mk name alias coercedTo filters outputs tags conns tg, cur, pre, post, st, cd,
     hinv, hout, hcd, hfresh, hlt, hvt, hpost, hvalid => by
@@ -63,9 +78,9 @@ theorem fillNode_sat {S : SchemaView} (hS : ValidSchemaView S) :
     have hcur : ∃ v0 ∈ (cd.vertices ++ [rec0]), v0.vid = cur ∧ v0.postType = post :=
       ⟨rec0, List.mem_append_right _ (by simp), rfl, hrec_post⟩
     have hconns : ValidConns S post conns := by simpa [ValidNode] using hvalid
-    refine (fillConnections_sat hS conns cur post t.fields st
+    refine ((fillConnections_sat hS conns cur post t.fields st
       { cd with vertices := cd.vertices ++ [rec0] } [] hinv hout hcd1 hcur ⟨t, ht, rfl⟩
-      hconns).mono fun r hr => ?_
+      hconns).monoK (fun _ h => h.mono (by simp [hasRetrNode]))).mono fun r hr => ?_
     obtain ⟨more, hmore, hpost'⟩ := hr
     have hiff : r.2.2 = [] → more = [] := by intro h; simpa [hmore] using h
     refine ⟨⟨hpost'.step.weaken hiff, hpost'.cdInv, ?_, ?_, fun h => hpost'.outs (hiff h)⟩, ?_⟩
@@ -83,7 +98,7 @@ theorem fillConnections_sat {S : SchemaView} (hS : ValidSchemaView S) :
       st.Inv → 0 < st.outStack.length → CD.Inv S st cd →
       (∃ v0 ∈ cd.vertices, v0.vid = cur ∧ v0.postType = postType) →
       (∃ t, S.vertexType postType = some t ∧ defined = t.fields) → ValidConns S postType l →
-      Sat FillSite (fillConnections S cur postType defined l st cd errs)
+      Sat (FillSite (hasRetrConns l)) (fillConnections S cur postType defined l st cd errs)
         (fun r => ∃ more, r.2.2 = errs ++ more ∧ FillPost S st cd r.1 r.2.1 (more = []))
   | [], cur, postType, defined, st, cd, errs, hinv, _, hcd, _, _, _ => by
     unfold fillConnections
@@ -96,11 +111,13 @@ theorem fillConnections_sat {S : SchemaView} (hS : ValidSchemaView S) :
     -- the continuation: the remaining connections
     have hk : ∀ (st3 : St) (cd3 : CD) (e : List FrontErr), st3.Inv → 0 < st3.outStack.length →
         CD.Inv S st3 cd3 → (∃ v0 ∈ cd3.vertices, v0.vid = cur ∧ v0.postType = postType) →
-        Sat FillSite (fillConnections S cur postType defined rest st3 cd3 (errs ++ e))
+        Sat (FillSite (hasRetrConns ((conn, sub) :: rest)))
+          (fillConnections S cur postType defined rest st3 cd3 (errs ++ e))
           (fun r => ∃ more, r.2.2 = (errs ++ e) ++ more ∧ FillPost S st3 cd3 r.1 r.2.1 (more = [])) :=
       fun st3 cd3 e h3 ho3 hc3 hcur3 =>
-        fillConnections_sat hS rest cur postType defined st3 cd3 (errs ++ e) h3 ho3 hc3 hcur3
-          ⟨t, ht, hdefined⟩ hrest
+        (fillConnections_sat hS rest cur postType defined st3 cd3 (errs ++ e) h3 ho3 hc3 hcur3
+          ⟨t, ht, hdefined⟩ hrest).monoK (fun _ h => h.mono (by
+            intro h'; simp [hasRetrConns, h']))
     unfold fillConnections
     by_cases htn : sub.name = TYPENAME
     · -- `__typename`: a property
@@ -172,7 +189,7 @@ theorem fillConnections_sat {S : SchemaView} (hS : ValidSchemaView S) :
         -- the edge's own processing
         have hinner : ∃ cdIn, (∀ x ∈ cd.vertices, x ∈ cdIn.vertices) ∧
             (∀ x ∈ cdVids cd, x ∈ cdVids cdIn) ∧
-            Sat FillSite
+            Sat (FillSite (hasRetrConns ((conn, sub) :: rest)))
               (match conn.fold with
                | some fg =>
                  let e1 := (if conn.optional then [FrontErr.UnsupportedDirectiveOnFoldedEdge] else []) ++
@@ -197,6 +214,13 @@ theorem fillConnections_sat {S : SchemaView} (hS : ValidSchemaView S) :
             simp only
             rw [getEdgeDefinition_of_field hconn_field]
             simp only [bind_ok]
+            have hsubretr : ∀ {s : Site}, FillSite (hasRetrNode sub) s →
+                FillSite (hasRetrConns ((conn, sub) :: rest)) s :=
+              fun h => h.mono (by intro h'; simp [hasRetrConns, h'])
+            have hfgretr : ∀ {s : Site}, FillSite fg.hasRetr s →
+                FillSite (hasRetrConns ((conn, sub) :: rest)) s :=
+              fun h => h.mono (by
+                intro h'; simp [hasRetrConns, FieldConnection.hasRetr, hf, h'])
             refine Sat.bind ((makeEdgeParameters_sat fd _ (hS.paramsDistinct t htmem fd hfdmem)).monoK
               (fun _ h => Or.inl (Or.inl (Or.inr h)))) fun paramErrs _ => ?_
             split
@@ -212,11 +236,11 @@ theorem fillConnections_sat {S : SchemaView} (hS : ValidSchemaView S) :
               have hempty : CD.Inv S (foldEnter st1 st.nextVid) CD.empty :=
                 ⟨by simp [CD.empty], by simp [CD.empty], by simp [CD.empty], by simp [CD.empty],
                  by simp [CD.empty]⟩
-              refine Sat.bind (fillNode_sat hS sub st.nextVid fd.ty.base _ _ CD.empty hfe_inv
+              refine Sat.bind ((fillNode_sat hS sub st.nextVid fd.ty.base _ _ CD.empty hfe_inv
                 hfe_outlen hempty (by simp [CD.empty]) (by rw [hfe_nv, h1nv']; exact Nat.lt_succ_self _)
-                hedge rfl hsubvalid) fun r hr => ?_
-              exact foldAfterFill_sat hS h1inv h1out' hcd_st1 st.nextVid fg st.nextEid sub.name
-                sub.alias _ _ r hr.1 hr.2
+                hedge rfl hsubvalid).monoK (fun _ h => hsubretr h)) fun r hr => ?_
+              exact (foldAfterFill_sat hS h1inv h1out' hcd_st1 st.nextVid fg st.nextEid sub.name
+                sub.alias _ _ r hr.1 hr.2).monoK (fun _ h => hfgretr h)
           | none =>
             refine ⟨{ cd with edges := cd.edges ++ [⟨st.nextEid, cur, st.nextVid, conn⟩] },
               fun _ h => h, fun _ h => h, ?_⟩
@@ -241,8 +265,9 @@ theorem fillConnections_sat {S : SchemaView} (hS : ValidSchemaView S) :
                 · exact hcd_st1.edgesOk e h
                 · simp at h; subst h
                   exact ⟨v0, hv0, hv0c, fd, by rw [hv0p]; exact hconn_field⟩
-            refine (fillNode_sat hS sub st.nextVid fd.ty.base _ st1 _ h1inv h1out' hcd2 ?_
-              (by rw [h1nv']; exact Nat.lt_succ_self _) hedge rfl hsubvalid).mono fun r hr => hr.1
+            refine ((fillNode_sat hS sub st.nextVid fd.ty.base _ st1 _ h1inv h1out' hcd2 ?_
+              (by rw [h1nv']; exact Nat.lt_succ_self _) hedge rfl hsubvalid).monoK
+              (fun _ h => h.mono (by intro h'; simp [hasRetrConns, h']))).mono fun r hr => hr.1
             intro v hv
             exact Nat.ne_of_lt (hcd.vidsLt v hv)
         obtain ⟨cdIn, hverts, hvids, hsat⟩ := hinner
